@@ -112,6 +112,8 @@ def make_plugin(w: World):
                     info['prompt_no'] = getattr(ev, 'prompt_no', None)
             if hook == 'on_change_state':
                 info['state_name'] = kw.get('state_name')
+            if hook == 'send_command':
+                info['cmd'] = getattr(kw.get('command'), 'command', None)
             if hook == 'on_change_script':
                 info['script_id'] = ident_of(kw.get('script'))
             if hook == 'on_start_run' and ctx is not None and ctx.running_process is not None:
@@ -127,6 +129,7 @@ def make_plugin(w: World):
             n = len(w.gates.setdefault(hook, []))
             info['n'] = n
             gate = asyncio.Event()
+            gate.info = info
             held = hook in w.hold
             w.gates[hook].append(gate)
             info['held'] = held
@@ -302,6 +305,20 @@ async def run_scenario(w: World):
             for i, g in enumerate(gs):
                 if which == 'all' or which == i:
                     g.set()
+        elif op == 'release_first':
+            # release the oldest gate of the hook that is still closed (and matches the given fields)
+            hook = step[1]
+            want = step[2] if len(step) > 2 else {}
+            done = False
+            for g in w.gates.get(hook, []):
+                if not g.is_set() and all(g.info.get(a) == b for a, b in want.items()):
+                    g.set()
+                    done = True
+                    break
+            if not done:
+                w.log(k='release_miss', hook=hook, want=want)
+        elif op == 'mark':
+            w.log(k='mark', n=step[1])
         elif op == 'release_all':
             w.hold.clear()
             for gs in w.gates.values():
@@ -317,6 +334,12 @@ async def run_scenario(w: World):
             # let the current child end with the given outcome
             Path(w.ctl + '.tmp').write_text(step[1])
             os.replace(w.ctl + '.tmp', w.ctl)
+        elif op == 'wait_child_exit':
+            t_end = time.time() + (step[1] if len(step) > 1 else 6.0)
+            while w.alive() and time.time() < t_end:
+                await asyncio.sleep(0.01)
+            if w.alive():
+                w.log(k='child_still_alive')
         elif op == 'child_reset':
             try:
                 os.unlink(w.ctl)
